@@ -23,6 +23,10 @@ RULES = {
     'C01.e': 'increment: stored = add(parse(current or "0"), inc argument)',
     'C01.f': 'tombstone typestate: on a branch that established that an entry of the shared map is Deleted, the only writes of that '
              'map are the removal of the entry or an insert that keeps the state Deleted (background code never revives a removed key)',
+    'C01.g': 'a live write brings a removed key back: the function that computes the state of a rewritten entry answers only New or '
+             'Updated (never the old state passed through, which would keep Deleted on a key that was just set)',
+    'C01.h': 'a mutation command that answers success did mutate: in the Set / Increment / Remove arms a locally built success reply '
+             'is dominated by the call of the mutator (or, on a non-primary node, of the forwarder)',
 }
 
 VALUE_MAP = 'std::collections::HashMap::<std::string::String, nundb::bo::Value>::'
@@ -299,3 +303,63 @@ def run(ck, m):
                   'on the branch where the entry is known to be Deleted, %s stores it with state %s: the removed key is listed again '
                   'and increment treats the sentinel as a value' % (bad[0][0], bad[0][1]), b.loc(bi))
     ck.floor('C01.f', nsw, 1, 'state switches with a Deleted branch that touches the shared map')
+
+    # ---- (g) state after a live write ---------------------------------------------------------
+    upd = [b for b in P.user_bodies() if b.kind == 'method' and b.argc == 1 and b.locals[0] == 'nundb::bo::ValueStatus' and b.locals[1] == '&nundb::bo::Value']
+    if len(upd) != 1:
+        ck.undecided('C01.g', 'state-after-write', 'anchor', 'expected one (&Value) -> ValueStatus method, found %d' % len(upd))
+    else:
+        ub = upd[0]
+        vs = core.enum_variants_of(ub, {'c': {'l': 0}}, stop_at_calls=True) if False else set()
+        for r in core.place_origins(ub, {'l': 0}):
+            if r[0] == 'const':
+                c = core.const_of(r)
+                vs.add(c.get('variant') or '?')
+            elif r[0] == 'agg':
+                vs.add(ub.blocks[r[1]]['s'][r[2]]['r'].get('variant') or '?')
+            else:
+                vs.add('?')
+        okg = bool(vs) and vs <= {'New', 'Updated'}
+        ck.ob('C01.g', short(ub.id), 'rewritten-entry-is-live', okg,
+              'a rewritten entry becomes New or Updated' if okg else
+              'the state of a rewritten entry can be %s (the old state handed through): a set / increment on a removed key stores the new value '
+              'still marked Deleted — keys hides it and the next increment treats it as absent' % sorted(vs), '%s:%s' % (ub.file, ub.line))
+    # ---- (h) success implies the mutator ran ------------------------------------------------
+    from props import repl
+    d, sw = m.dispatcher()
+    muts = {store_fn(m).id, increment_fn(m).id, remover_fn(m).id}
+    # helpers that (transitively, depth 3) call a mutator
+    def reaches_mut(bid, depth=0, seen=None):
+        seen = seen if seen is not None else set()
+        if bid in muts:
+            return True
+        if bid in seen or depth > 3:
+            return False
+        seen.add(bid)
+        cb = P.bodies.get(bid)
+        return cb is not None and any(reaches_mut(callee(t), depth + 1, seen) for _, t in cb.calls() if not t['f'].get('ind'))
+    try:
+        fwd = repl.forwarder(m).id
+    except core.AnchorError:
+        fwd = None
+    nh = 0
+    for v in ('Set', 'Increment', 'Remove'):
+        if v not in sw[1]:
+            continue
+        reg = m.arm_region(d, sw, v)
+        closures = [P.bodies[s['r']['def']] for x in sorted(reg) for s in d.blocks[x]['s']
+                    if s['k'] == 'assign' and s['r']['k'] == 'agg' and s['r'].get('ak') == 'closure' and s['r']['def'] in P.bodies]
+        for cb in closures:
+            acts = [bi for bi, t in cb.calls() if reaches_mut(callee(t)) or (fwd and callee(t) == fwd)]
+            succ = [bi for bi, bl in enumerate(cb.blocks) if not bl.get('cleanup') for s in bl['s']
+                    if s['k'] == 'assign' and s['r']['k'] == 'agg' and s['r'].get('adt', '').endswith('bo::Response') and s['r'].get('variant') in ('Ok', 'Set')]
+            if not acts and not succ:
+                continue
+            nh += 1
+            bad = [cb.loc(x) for x in succ if not any(cb.dominates(a, x) for a in acts)]
+            ck.ob('C01.h', short(cb.id), '%s:success-after-mutation' % v, not bad,
+                  'a success reply of the %s arm follows the mutator / the forward to the primary' % v if not bad else
+                  'the %s arm answers success at %s without having called the mutator: the command is acknowledged, nothing is stored '
+                  '(e.g. `increment k 0` on an absent key leaves it <Empty> and unlisted, on a non-numeric value answers Ok)' % (v, bad),
+                  '%s:%s' % (cb.file, cb.line))
+    ck.floor('C01.h', nh, 3, 'mutation arm closures')
